@@ -41,20 +41,48 @@ func FromReaders(readers ...io.Reader) (*Dialogue, error) {
 }
 
 // FromReader creates a dialogue tree by reading the content of reader.
-func FromReader(reader io.Reader) (*Dialogue, error) {
+func FromReader(reader io.Reader) (dialogue *Dialogue, err error) {
 	scriptData, err := io.ReadAll(reader)
 	if err != nil {
 		return nil, fmt.Errorf("failed to read content: %w", err)
 	}
+
+	defer func() {
+		if r := recover(); r != nil {
+			dialogue, err = nil, fmt.Errorf("failed to parse content: %v", r)
+		}
+	}()
+
 	input := antlr.NewInputStream(string(scriptData))
 	var (
-		lexer    = parser.NewYarnSpinnerLexer(input)
-		stream   = antlr.NewCommonTokenStream(lexer, antlr.LexerDefaultTokenChannel)
-		p        = parser.NewYarnSpinnerParser(stream)
-		listener = &parserListener{}
+		errorListener = &syntaxErrorListener{DefaultErrorListener: antlr.NewDefaultErrorListener()}
+		lexer         = parser.NewYarnSpinnerLexer(input)
+		stream        = antlr.NewCommonTokenStream(lexer, antlr.LexerDefaultTokenChannel)
+		p             = parser.NewYarnSpinnerParser(stream)
+		listener      = &parserListener{}
 	)
+	lexer.RemoveErrorListeners()
+	lexer.AddErrorListener(errorListener)
+	p.RemoveErrorListeners()
+	p.AddErrorListener(errorListener)
 
-	antlr.ParseTreeWalkerDefault.Walk(listener, p.Dialogue())
+	parseTree := p.Dialogue()
+	if len(errorListener.errors) != 0 {
+		return nil, fmt.Errorf("failed to parse content: %w", errors.Join(errorListener.errors...))
+	}
+
+	antlr.ParseTreeWalkerDefault.Walk(listener, parseTree)
 
 	return listener.dialogue, nil
+}
+
+// syntaxErrorListener collects the syntax errors reported by the lexer and the parser.
+type syntaxErrorListener struct {
+	*antlr.DefaultErrorListener
+	errors []error
+}
+
+// SyntaxError is called when the lexer or the parser meets invalid input.
+func (l *syntaxErrorListener) SyntaxError(_ antlr.Recognizer, _ interface{}, line, column int, msg string, _ antlr.RecognitionException) {
+	l.errors = append(l.errors, fmt.Errorf("line %d:%d %s", line, column, msg))
 }
